@@ -41,9 +41,9 @@ JOBS = {
     "sphinx": {"quick": [({"SECS": 2, "VARIETY": "thin"}, 2, None), ({"SECS": 3, "VARIETY": "mini"}, 2, None)],
                "thorough": [({"SECS": 2, "VARIETY": "full"}, 4, None), ({"SECS": 3, "VARIETY": "thin"}, 8, None), ({"SECS": 4, "VARIETY": "mini"}, 8, None)]},
 }
-# the strict invariant is expected to fail on the model here (documented defects); sphinx has none
-DEFECT_JOBS = {"google": {"SECS": 1, "VARIETY": "full"}, "numpy": {"SECS": 2, "VARIETY": "mini"}}
-CLEAN_INVARIANT = {"google": "ParsesBackBeyondKnown", "numpy": "ParsesBackBeyondKnown", "sphinx": "ParsesBack"}
+# no recorded defect is left (findings.d/C13.json: both fixed in /repo): the strict equality is checked everywhere
+DEFECT_JOBS: dict = {}
+CLEAN_INVARIANT = {"google": "ParsesBack", "numpy": "ParsesBack", "sphinx": "ParsesBack"}
 
 
 class Stats:
@@ -80,7 +80,7 @@ def replay_structs(run: Run, style: str, st, bind, griffe, cases: list, stats: S
         run.evaluated()
         run.replayed()
         kinds = [s["kind"] for s in case["expect"]]
-        ident = {"style": style, "text": text, "parent_source": parent_src, "options": options, "expect": case["expect"], "lines": case["lines"], "sig": case["sig"],
+        ident = {"style": style, "text": text, "parent_source": parent_src, "options": options, "expect": case["expect"], "lines": case["lines"], "sig": case["sig"], "wrap": case.get("wrap", "plain"),
                  "opts": case["opts"], "variant": v, "origin": origin}
         if len(kinds) > 1:
             run.nontrivial_case((style, st.code(case["lines"]), json.dumps(case["sig"], sort_keys=True), json.dumps(case["opts"], sort_keys=True)))
@@ -116,7 +116,7 @@ def run_replay_file(run: Run, griffe, path: str):
     styles = load_styles(griffe, (c["style"],))
     st = styles[c["style"]]
     bind = BINDINGS[c["style"]](griffe, st)
-    case = {"lines": c["lines"], "expect": c["expect"], "sig": c["sig"], "opts": c["opts"], "outcome": "done", "sections": c["expect"], "crash": None}
+    case = {"lines": c["lines"], "expect": c["expect"], "sig": c["sig"], "opts": c["opts"], "wrap": c.get("wrap", "plain"), "outcome": "done", "sections": c["expect"], "crash": None}
     # re-execute exactly the stored text / documented object / options
     bind.variants = (c["variant"],)
     stats = Stats()
@@ -163,7 +163,7 @@ def main(tier: str, replay: str | None = None):
                 run.note(f"{style}: the strict invariant ParsesBack holds on the model in the defect configuration (defect fixed and model updated?)")
             elif res.trace:
                 fin = res.trace[-1]
-                case = {k: fin[k] for k in ("lines", "expect", "sig", "opts", "sections", "crash")}
+                case = {k: fin[k] for k in ("lines", "expect", "sig", "wrap", "opts", "sections", "crash")}
                 case["outcome"] = fin["pc"]
                 case["flags"] = fin.get("flags", {})
                 before = sum(h["count"] for h in run.known_hits.values()) + len(run.violations)
